@@ -1,7 +1,7 @@
 """C14 -- tree binarization and unary-chain collapsing are reversible normal
 forms (DESIGN 5/C14).  Contracts with OLD snapshots on the real
 transform.binarize / collapse_unary_chains / uncollapse_unary_chains."""
-from . import common, contracts, gen, model
+from . import probe, common, contracts, gen, model
 
 PROPERTY = 'C14'
 LEVEL = 'exploration'
@@ -19,6 +19,7 @@ ASSUMPTIONS = ['"no head marks" is exercised as: no node carries a head flag '
                'present but all False" is tallied, not judged']
 WATCHDOG = {'quick': 600, 'thorough': 3600}
 PIPELINE_CASES = {'quick': 500, 'thorough': 20000}   # vt/pipeline.py
+STEPS = 3000000
 MIN = {'quick': {'distinct': 2000,
                  'hooks': {'transform.binarize': 3000,
                            'transform.collapse_unary_chains': 2000,
@@ -312,7 +313,11 @@ def run_binarize(ctx, case, rng):
                             via=0.5 if case.get('unmarked') else None)
     try:
         with common.captured():
-            ctx.R.transform.binarize(live, **case.get('params', {}))
+            with probe.step_budget(STEPS):
+                ctx.R.transform.binarize(live, **case.get('params', {}))
+    except probe.StepBudgetExceeded:
+        _fail('binarize-does-not-terminate', 'step budget of %d exceeded'
+              % STEPS)
     except Exception:
         pass
 
@@ -323,8 +328,12 @@ def run_collapse(ctx, case, rng):
     tr = ctx.R.transform
     try:
         with common.captured():
-            t = tr.collapse_unary_chains(live)
-            tr.uncollapse_unary_chains(t)
+            with probe.step_budget(STEPS):
+                t = tr.collapse_unary_chains(live)
+                tr.uncollapse_unary_chains(t)
+    except probe.StepBudgetExceeded:
+        _fail('collapse-does-not-terminate', 'step budget of %d exceeded '
+              '(collapse + uncollapse)' % STEPS)
     except Exception:
         pass
     Cur.collapsed_from.clear()
